@@ -20,7 +20,7 @@ ASSUMPTIONS = [
     "AES of the model is OpenSSL libcrypto (EVP, CBC, zero IV), cross-checked against a from-the-definition AES in C16",
     "the writer's single trailing empty line after the hex block is allowed (not part of the stated layout, not contradicting it)",
 ]
-REQUIRED_CLASSES = ["flag-tag-mismatch=flag-without-tag", "flag-tag-mismatch=tag-without-flag", "offset>65535", "comps>=2", "bec2.blocks>=2", "bec2.ecc", "enc-component", "route=path", "entries>255", "bec2.unknown-tag-block"]
+REQUIRED_CLASSES = ["enc-component>4KiB", "flag-tag-mismatch=flag-without-tag", "flag-tag-mismatch=tag-without-flag", "offset>65535", "comps>=2", "bec2.blocks>=2", "bec2.ecc", "enc-component", "route=path", "entries>255", "bec2.unknown-tag-block"]
 
 
 def _model_comps(case, key):
@@ -229,6 +229,22 @@ def enum_many_entries(tier, shard, nshards, rng):
         yield dict(comments=[], comps=comps, key=bytes(rng.getrandbits(8) for _ in range(16)), route="stream", offset=5)
 
 
+def enum_large_enc(tier, shard, nshards, rng):
+    """CONSTRUCTED: session-key-encrypted components above 4 KiB / 64 KiB (the generated parts keep encrypted components small)"""
+    sizes = [4097, 9000, 40000] if tier == "quick" else [4097, 9000, 40000, 65537, 200000]
+    for i, n in enumerate(sizes):
+        if i % nshards != shard:
+            continue
+        comps = [dict(desc=[(0xC3, b"\x03"), (0xC2, b"\x02")], blob=bytes(rng.getrandbits(8) for _ in range(n)), actual_len=None, enc=True),
+                 dict(desc=[(0xC1, b"\x01")], blob=b"plain", actual_len=None, enc=False)]
+        yield dict(comments=[], comps=comps, key=bytes(rng.getrandbits(8) for _ in range(16)), route="stream", offset=0 if i % 2 else 5)
+
+
+def check_large_enc(case, rec):
+    rec.cls("enc-component>4KiB")
+    check_bf3(case, rec)
+
+
 def check_many(case, rec):
     rec.cls("entries>255" if len(case["comps"]) > 255 else "entries=255")
     check_bf3(case, rec)
@@ -237,6 +253,7 @@ def check_many(case, rec):
 def parts(tier):
     return [
         Part("many_entries", check=check_many, enum=enum_many_entries, quick=(4, 0), thorough=(8, 0)),
+        Part("large_enc", check=check_large_enc, enum=enum_large_enc, quick=(3, 0), thorough=(5, 0)),
         Part("bf3_layout", check=check_bf3, strategy=strat_bf3, quick=(16, 400), thorough=(16, 4000)),
         Part("bec2_layout", check=check_bec2, strategy=strat_bec2, quick=(16, 150), thorough=(16, 1200)),
     ]
